@@ -222,5 +222,12 @@ func Universe(level int) (*Schema, *Helpers) {
 			}
 		}
 	}
+	// aliasing-prone shapes (containers whose elements own slices); appended last so that the names of all earlier
+	// types stay stable. At level 2 most of them exist already; duplicates are harmless.
+	vs := b.Struct("vs", nil, F("a", Vec(TInt)), F("s", TString))
+	for _, x := range []*Type{Dict(Vec(TInt)), DictAny(TInt, Vec(TString)), Vec(Vec(TInt)), Vec(Dict(TInt)), Dict(Ref(vs)),
+		Vec(Ref(vs)), Maybe(Vec(TString)), Tup(Vec(TInt), Const(3)), Dict(Dict(TString))} {
+		place(x, false, false)
+	}
 	return b.S, h
 }
